@@ -8,4 +8,5 @@ let table : (string * (Model.sx -> Model.sx)) list = [
   "h14", Model.run_h14;
   "post", Model.run_post;
   "visited", Model.run_visited;
+  "rules", Model.run_rules;
 ]
